@@ -38,7 +38,7 @@ KindRank(k) == CASE k = "price" -> 0 [] k = "trx" -> 2
 Rank(d) == (d.z - D1) * 10 + KindRank(d.k)
 
 NoMap == [from |-> D1 - 1, to |-> D3 + 1, iv |-> "once", last |-> 0, diff |-> FALSE, close |-> FALSE,
-          acctAll |-> TRUE, accts |-> << >>, commAll |-> TRUE, commsF |-> << >>, map |-> << >>, remap |-> << >>]
+          acctAll |-> TRUE, accts |-> << >>, commAll |-> TRUE, commsF |-> << >>, map |-> << >>, remap |-> << >>, show |-> << >>]
 Windows == {<<D1 - 1, D3 + 1>>, <<D2, D3 + 1>>, <<D1 - 1, D2>>}
 FlagSet ==
   CASE Family = "unvalued" ->
